@@ -15,6 +15,7 @@ ASSUMPTIONS = [
     "floating point rounding below 1e-8 (control points) / 1e-9 (parameters, knots) is not observable",
     "sqrt is not modelled: the chord lengths computed by the implementation's own point_distance (and math.sqrt for the centripetal method) are inputs of the model, checked against the exact squared distances",
     "data points with distinct consecutive points (one malformed stratum: all points identical)",
+    "the Coq model is evaluated on inputs where exact rational evaluation is affordable (size / degree caps in cost_ok) and well conditioned (control points within 8x the data range); every case is checked by the exact oracle",
 ]
 THEOREM_NOTES = "see coq/Props/C11.v: [G] general, 'given pivots' = under the hypothesis that Doolittle meets no zero pivot"
 LEVEL_TEXT = ("Coq theorems over the reals about the Gallina model coq/Model/Fit.v (uses Model/LinAlg.v, Model/Basis.v, Model/Eval.v): parameters start "
@@ -155,8 +156,34 @@ def size_for(rng, i, lo=3):
     return rng.randint(lo, hi)
 
 
-def model_ok(case):
+def cost_ok(n, p, approx=False):
+    """exact evaluation of the model grows steeply with size and degree: evaluate it only where it stays cheap
+    (larger inputs are covered by the exact oracle)"""
+    if approx:
+        return n <= 12 or (p <= 2 and n <= 28) or (p <= 3 and n <= 16)
+    return n <= 12 or (p <= 2 and n <= 40) or (p <= 3 and n <= 24) or (p <= 4 and n <= 16)
+
+
+def well_conditioned(case, out):
+    """least-squares / interpolation systems whose solution is far larger than the data are ill-conditioned: the float result
+    is then compared by the exact oracle only"""
+    if "ok" not in out:
+        return True
+    big = max([1.0] + [abs(x) for q in case["pts"] for x in q])
+    return max(abs(x) for q in out["ok"]["P"] for x in q) <= 8 * big + 8
+
+
+def model_ok(case, out=None):
     """evaluate the Coq model on this case? (exact chords always; irrational chords only for small sizes)"""
+    if out is not None and not well_conditioned(case, out):
+        return False
+    if "su" in case:
+        ap = "cu" in case
+        if not (cost_ok(case["su"], case["pu"], ap) and cost_ok(case["sv"], case["pv"], ap) and case["su"] * case["sv"] <= 80):
+            return False
+    else:
+        if not cost_ok(len(case["pts"]), case["p"], "c" in case):
+            return False
     return case["data"] == "pyth" or case.get("small", False)
 
 
@@ -199,7 +226,7 @@ class InterpCurve(Family):
         return r
 
     def coq(self, c, out):
-        if not model_ok(c):
+        if not model_ok(c, out):
             return None
         cds = out["cds"]
         e = "(andb (close_chords %s (sqdists Qops %s) %s) (res_cmp cmp_fit1 (interpolate_curve Qops %s %s %s) %s))" % (
@@ -296,7 +323,7 @@ class ApproxCurve(Family):
         return r
 
     def coq(self, c, out):
-        if not model_ok(c):
+        if not model_ok(c, out):
             return None
         cds = out["cds"]
         return "(andb (close_chords %s (sqdists Qops %s) %s) (res_cmp cmp_fit1 (approximate_curve Qops %s %s %s %s) %s))" % (
@@ -410,7 +437,7 @@ class InterpSurface(Family):
         return r
 
     def coq(self, c, out):
-        if not model_ok(c):
+        if not model_ok(c, out):
             return None
         cu, cv = out["cds"]
         e = "(res_cmp cmp_fit2 (interpolate_surface Qops %s %s %s %s %s %s %s) %s)" % (
@@ -498,7 +525,7 @@ class ApproxSurface(Family):
         return r
 
     def coq(self, c, out):
-        if not model_ok(c):
+        if not model_ok(c, out):
             return None
         cu, cv = out["cds"]
         return "(res_cmp cmp_fit2 (approximate_surface Qops %s %s %s %s %s %s %s %s %s) %s)" % (
